@@ -292,6 +292,21 @@ pub fn run(run: &Run) {
                 }
             }
         }
+        // identifiers that collide with the names anthem itself generates when it renames symbols and
+        // predicates (s -> s__s, p -> p_p, h-/t-copies), all present at once
+        let clash: Vec<&str> = match kind {
+            Kind::Program => vec![
+                "a. a__s. p(a).", "a. a__s. p(ha).", "a. a__s. a__s__s. p(a). p(a__s).", "ha. ha__s. ta. p(ha). p(ta).",
+                "aux(X) :- q(X). aux_p(X) :- aux(X). aux_p_p(X) :- aux_p(X). out(X) :- aux_p_p(X).", "p(V1) :- q(V1), q(V2), q(V3), V1 != V2.",
+            ],
+            Kind::Theory => vec!["a and a__s and p(a).", "forall X (p(X) -> X = a) and a and a__s.", "ha and ta and p(ha) and p(ta)."],
+            Kind::Specification => vec!["spec: a and a__s and p(a).", "assumption: a__s -> p(a). spec: a."],
+            Kind::UserGuide => vec!["input: a/0. input: a__s/0. output: p/1.", "input: a -> symbol. input: a__s/0."],
+            Kind::Outline => vec!["lemma: a and a__s and p(a).", "definition: forall X (a__s(X) <-> p(a))."],
+        };
+        for c in clash {
+            strs.push(c.to_string());
+        }
         run.count(&format!("token_strings_{kind:?}"), strs.len() as u64);
         strs.par_iter().for_each(|s| check(run, kind, s, "token string"));
     }
